@@ -82,7 +82,8 @@ class LocationAction(object):
         self.__id = tp_id
         self.__condition = condition
         self.__config = config
-        self.__window = TracepointWindow(self.__config.get(WINDOW_START, 0), self.__config.get(WINDOW_END, 0))
+        # the arguments of a tracepoint arrive as text
+        self.__window = TracepointWindow(self.__get_int(WINDOW_START, 0), self.__get_int(WINDOW_END, 0))
         self.__stats = TracepointExecutionStats()
         self.__action_type = action_type
         self.__location: Optional['Location'] = None
@@ -220,7 +221,7 @@ class LocationAction(object):
     def __get_int(self, name: str, default_value: int):
         try:
             return int(self.__config.get(name, default_value))
-        except ValueError:
+        except (ValueError, TypeError):
             return default_value
 
     def __str__(self):
@@ -574,6 +575,14 @@ class FunctionLocation(Location):
         return False
 
 
+def _with_window(config: Dict[str, any], args: Dict[str, str]) -> Dict[str, any]:
+    """The time window of the tracepoint applies to each of its actions (only set when the tracepoint has one)."""
+    for key in (WINDOW_START, WINDOW_END):
+        if key in args:
+            config[key] = args[key]
+    return config
+
+
 def build_snapshot_action(tp_id: str, args: Dict[str, str], watches: List[str]) -> Optional[LocationAction]:
     """
     Create an action to create a snapshot.
@@ -600,7 +609,7 @@ def build_snapshot_action(tp_id: str, args: Dict[str, str], watches: List[str]) 
     if STAGE in args:
         # the snapshot action has to know about a capture stage: it then waits for the end of the line or method
         config[STAGE] = args[STAGE]
-    return LocationAction(tp_id, condition, config, LocationAction.ActionType.Snapshot)
+    return LocationAction(tp_id, condition, _with_window(config, args), LocationAction.ActionType.Snapshot)
 
 
 def build_log_action(tp_id: str, args: Dict[str, str]) -> Optional[LocationAction]:
@@ -617,11 +626,11 @@ def build_log_action(tp_id: str, args: Dict[str, str]) -> Optional[LocationActio
         return None
 
     condition = args[CONDITION] if CONDITION in args else None
-    return LocationAction(tp_id, condition, {
+    return LocationAction(tp_id, condition, _with_window({
         LOG_MSG: args[LOG_MSG],
         FIRE_COUNT: args.get(FIRE_COUNT, '1'),
         FIRE_PERIOD: args.get(FIRE_PERIOD, '1000'),
-    }, LocationAction.ActionType.Log)
+    }, args), LocationAction.ActionType.Log)
 
 
 def build_metric_action(tp_id: str, args: Dict[str, str], metrics: List[MetricDefinition]) -> Optional[LocationAction]:
@@ -637,11 +646,11 @@ def build_metric_action(tp_id: str, args: Dict[str, str], metrics: List[MetricDe
         return None
 
     condition = args[CONDITION] if CONDITION in args else None
-    return LocationAction(tp_id, condition, {
+    return LocationAction(tp_id, condition, _with_window({
         'metrics': list(metrics),
         FIRE_COUNT: args.get(FIRE_COUNT, '1'),
         FIRE_PERIOD: args.get(FIRE_PERIOD, '1000'),
-    }, LocationAction.ActionType.Metric)
+    }, args), LocationAction.ActionType.Metric)
 
 
 def build_span_action(tp_id: str, args: Dict[str, str]) -> Optional[LocationAction]:
@@ -656,11 +665,11 @@ def build_span_action(tp_id: str, args: Dict[str, str]) -> Optional[LocationActi
         return None
 
     condition = args[CONDITION] if CONDITION in args else None
-    return LocationAction(tp_id, condition, {
+    return LocationAction(tp_id, condition, _with_window({
         SPAN: args[SPAN],
         FIRE_COUNT: args.get(FIRE_COUNT, '1'),
         FIRE_PERIOD: args.get(FIRE_PERIOD, '1000'),
-    }, LocationAction.ActionType.Span)
+    }, args), LocationAction.ActionType.Span)
 
 
 def build_trigger(tp_id: str, path: str, line_no: int, args: Dict[str, str], watches: List[str],
